@@ -437,6 +437,62 @@ func c06JsSafeRight(tt js.TokenType) bool {
 	return false
 }
 
+// c06JsIsPunct reports whether t is one of the punctuator / operator spellings.
+func c06JsIsPunct(t c06JsTok) bool {
+	for _, p := range c06JsPunct {
+		if p.tt == t.tt && p.text == t.text {
+			return true
+		}
+	}
+	return false
+}
+
+// c06JsExactAdj: the exact separation rule (Coq: stops) for a punctuator or a numeric literal directly followed by
+// next — no punctuator that properly extends prev is a prefix of prev+next (except "?." before a digit), no comment
+// opener, no ".5"; '.' directly after a numeric literal that is not a plain decimal integer.
+func c06JsExactAdj(prev c06JsTok, tt js.TokenType, next string) bool {
+	if next == "" {
+		return false
+	}
+	c := next[0]
+	digit := c >= '0' && c <= '9'
+	if c06JsIsPunct(prev) {
+		all := prev.text + next
+		for _, p := range c06JsPunct {
+			if len(p.text) > len(prev.text) && strings.HasPrefix(p.text, prev.text) && strings.HasPrefix(all, p.text) {
+				if prev.text == "?" && len(next) > 1 && c == '.' && next[1] >= '0' && next[1] <= '9' {
+					continue // "?." before a digit is '?' ".5"
+				}
+				return false
+			}
+		}
+		switch prev.text {
+		case ".", "?.":
+			return !digit
+		case "/":
+			return c != '/' && c != '*'
+		case "<":
+			return !strings.HasPrefix(next, "!--")
+		case "--":
+			return c != '>'
+		case "}":
+			return false // template bookkeeping decides what "}" is
+		}
+		return true
+	}
+	switch prev.tt {
+	case js.DecimalToken, js.BinaryToken, js.OctalToken, js.HexadecimalToken, js.IntegerToken:
+		plain := true
+		for i := 0; i < len(prev.text); i++ {
+			if !(prev.text[i] >= '0' && prev.text[i] <= '9' || prev.text[i] == '_') {
+				plain = false
+			}
+		}
+		return c == '.' && !plain && c06JsIsPunct(c06JsTok{tt, next})
+	}
+	return false
+}
+
 // unit emits a non-separator token, first separating it from the previous one where needed.
 func (g *c06JsSeq) unit(tt js.TokenType, text string) {
 	need := true
@@ -444,6 +500,16 @@ func (g *c06JsSeq) unit(tt js.TokenType, text string) {
 		need = false
 	} else if c06JsSafeLeft(g.toks[len(g.toks)-1]) || c06JsSafeRight(tt) {
 		need = false
+	} else if tt != js.RegExpToken && g.r.Bool() && c06JsExactAdj(g.toks[len(g.toks)-1], tt, text) {
+		need = false // adjacent under the exact rule: "=-", "!!", "-1", "0x1F.", ...
+		// the rule looks at everything that follows a token: '.' '.' '.' and '<' '!' '--' would merge across three tokens
+		src := g.src.String()
+		if len(src) > 3 {
+			src = src[len(src)-3:]
+		}
+		if strings.Contains(src+text, "<!--") || strings.Contains(src+text, "...") {
+			need = true
+		}
 	}
 	if need || (g.lastSep == 0 && g.r.Chance(1, 3)) {
 		g.sep(need)
@@ -1127,6 +1193,20 @@ func c06Oracle(r *Rng, tier string, rep *Report) {
 				map[string]interface{}{"input": q(d)})
 		}
 		rep.Eval(hx(d), nc > 0, "htmlclose")
+	}
+	// 7. ECMA-262 12.9.3: "The SourceCharacter immediately following a NumericLiteral must not be an IdentifierStart
+	// or DecimalDigit": a digit directly after a literal that it does not continue is a lexical error
+	for it := 0; it < 300; it++ {
+		num := c06GenJsNumber(r)
+		dg := string(rune('0' + r.Intn(10)))
+		d := []byte(num.text + dg)
+		toks, _, p := c06JsLexAll(d, false)
+		if p == nil && len(toks) >= 2 && toks[0].tt == num.tt && string(toks[0].data) == num.text && string(toks[1].data) != "" &&
+			toks[1].data[0] == dg[0] && toks[1].tt != js.ErrorToken {
+			rep.Violate("c06-numeric-follow:digit", fmt.Sprintf("%q: the digit %s directly after the numeric literal %q starts a second numeric token (%v %q), ECMA-262 12.9.3 forbids it",
+				d, dg, num.text, toks[1].tt, toks[1].data), map[string]interface{}{"input": q(d)})
+		}
+		rep.Eval(hx(d), true, "numfollow")
 	}
 	// 4. comment kind, directly
 	for it := 0; it < 2000; it++ {
